@@ -46,13 +46,17 @@ void FullHmmTransitionMatrix::setTransitionProbabilities(const Matrix<double>& m
 
   ParameterList pl;
 
+  // The rows are set on a copy: a row that is refused (probabilities not summing to one, or on the
+  // boundary of the simplex) leaves the object as it was.
+  std::vector<Simplex> simplices(vSimplex_);
   for (size_t i = 0; i < mat.getNumberOfRows(); ++i)
   {
-    vSimplex_[i].setFrequencies(mat.row(i));
-    ParameterList pls = vSimplex_[i].getParameters();
+    simplices[i].setFrequencies(mat.row(i));
+    ParameterList pls = simplices[i].getParameters();
     // The names of the simplex parameters already carry the namespace of the row.
     pl.addParameters(pls);
   }
+  vSimplex_ = simplices;
 
   matchParametersValues(pl);
 }
